@@ -304,6 +304,30 @@ fn check_utf8_bounded<const L: usize>() {
 #[kani::proof] #[kani::unwind(8)] fn b_utf8_len4() { check_utf8_bounded::<4>(); }
 //@thorough-end
 
+fn check_utf8_bounded_mut<const L: usize>() {
+    let mut arr: [u8; L] = kani::any();
+    let copy = arr;
+    let expect = spec_valid(&copy);
+    let p = arr.as_ptr();
+    let to_mut: bool = kani::any();
+    if to_mut {
+        let r = <&mut str>::try_from(CSliceMut::from(&mut arr[..]));
+        assert!(r.is_ok() == expect, "C12 CSliceMut -> &mut str refused exactly for ill-formed UTF-8");
+        if let Ok(s) = r { assert!(s.len() == L && (L == 0 || s.as_ptr() == p), "C12 resulting &mut str is the whole original buffer"); }
+    } else {
+        let r = <&str>::try_from(CSliceMut::from(&mut arr[..]));
+        assert!(r.is_ok() == expect, "C12 CSliceMut -> &str refused exactly for ill-formed UTF-8");
+        if let Ok(s) = r { assert!(s.len() == L && (L == 0 || s.as_ptr() == p), "C12 resulting &str is the whole original buffer"); }
+    }
+    kani::cover!(expect && to_mut, "valid, &mut str");
+    kani::cover!((!expect || L == 0) && !to_mut, "invalid, &str");
+}
+#[kani::proof] #[kani::unwind(6)] fn b_utf8_mut_len1() { check_utf8_bounded_mut::<1>(); }
+#[kani::proof] #[kani::unwind(6)] fn b_utf8_mut_len2() { check_utf8_bounded_mut::<2>(); }
+//@thorough-begin
+#[kani::proof] #[kani::unwind(8)] fn b_utf8_mut_len3() { check_utf8_bounded_mut::<3>(); }
+//@thorough-end
+
 //@ prefix=canary kind=canary clause=vacuity canary
 #[kani::proof]
 fn canary_slice() {
